@@ -410,9 +410,12 @@ class Gen:
         S = width(bt)
         nf = 2 + r.below(6)
         fields, off = [], 0
+        # declared types wider than int: keep all fields on one side of the int width (a mix is the known
+        # finding C07:bitfield-alias, pinned by corpus/C07/kf-bitfield-alias.c)
+        lo, hi = (1, S) if S <= 32 else ((1, 31) if r.chance(1, 2) else (32, S))
         for i in range(nf):
             c = r.below(8)
-            w = 1 if c == 0 else S if c == 1 else S - 1 if c == 2 else 1 + r.below(S)
+            w = lo if c == 0 else hi if c == 1 else max(lo, hi - 1) if c == 2 else lo + r.below(hi - lo + 1)
             if off % S + w > S:           # does not fit: gcc starts a new unit of the declared type
                 off = (off // S + 1) * S
             fields.append(("f%d" % i, w, off))
@@ -643,7 +646,10 @@ class Gen:
 
         def assign(ind):
             n, t = r.choice(vars_)
-            return "%s%s = %s;" % (ind, n, self.sexpr(t, vars_, 2))
+            e = self.sexpr(t, vars_, 2)
+            if e == "((%s) %s)" % (cspell(t), n):       # `x = (T) x` in a loop: known generator crash (C07:engines-disagree:gen-opt:crash)
+                e = "SADD (%s, %s, %s, %s)" % (cspell(t), cspell(UNS[promote(t)]), n, clit(t, 1))
+            return "%s%s = %s;" % (ind, n, e)
 
         def stmts(ind, depth, in_loop):
             out = []
